@@ -110,6 +110,9 @@ def entry_points(ctx):
             continue
         if fn.kind == "setter" or fn.name in MUTATORS or fn.name in CONSTRUCTORS:
             continue
+        if fn.name.startswith("_") and not (fn.name.startswith("__") and fn.name.endswith("__")):
+            continue      # private helpers are judged through the public operations that reach them (a helper of a
+            #               mutator may write its argument by design)
         eps.append(fn)
     return eps
 
